@@ -766,6 +766,221 @@ def trajectories(tier, seed):
 ITEMS['trajectories'] = trajectories
 
 
+# ------------------------------------------------------------------------------------------------
+# Every short history of public calls on the stateful layers (C02 C04 C20), against a reference kept with the
+# functional interface.  The environment uses stochastic components everywhere (random reset, moving
+# obstacles, stochastic ray tracing), so any extra, missing or misplaced draw shows as a different value.
+def _hist_parts(variant=0):
+    from functools import partial
+    from gym_gridverse.action import Action
+    from gym_gridverse.envs import observation_functions as of, reset_functions as rf, reward_functions as rw
+    from gym_gridverse.envs import terminating_functions as tf, transition_functions as tr
+    from gym_gridverse.envs.gridworld import GridWorld
+    from gym_gridverse.geometry import Shape
+    from gym_gridverse.grid_object import Color, Exit, Floor, MovingObstacle, Wall
+    from gym_gridverse.spaces import ActionSpace, ObservationSpace, StateSpace
+    types = [Floor, Wall, Exit, MovingObstacle]
+    sspace = StateSpace(Shape(5, 6), types, [Color.NONE])
+    aspace = ActionSpace([Action.MOVE_FORWARD, Action.TURN_LEFT, Action.TURN_RIGHT])
+    ospace = ObservationSpace(Shape(3, 3), types, [Color.NONE])
+
+    def make():
+        if variant == 1:
+            # a small room without obstacles: moving into a wall leaves the state equal to the one before
+            return GridWorld(
+                StateSpace(Shape(4, 4), types, [Color.NONE]), aspace, ospace,
+                partial(rf.empty, Shape(4, 4), True, True),
+                partial(tr.chain, transition_functions=[tr.move_agent, tr.turn_agent]),
+                partial(of.stochastic_raytracing, area=ospace.area),
+                partial(rw.living_reward, reward=-1.0),
+                tf.reach_exit)
+        return GridWorld(
+            sspace, aspace, ospace,
+            partial(rf.dynamic_obstacles, Shape(5, 6), 2, True),
+            partial(tr.chain, transition_functions=[tr.move_agent, tr.turn_agent, tr.move_obstacles]),
+            partial(of.stochastic_raytracing, area=ospace.area),
+            partial(rw.living_reward, reward=-1.0),
+            tf.reach_exit)
+    return make, aspace, Action
+
+
+def _obs_eq(a, b):
+    return a.grid == b.grid and a.agent == b.agent
+
+
+def _inner_history(ops, seed):
+    """returns a description of the first disagreement between the stateful interface and the reference, or None"""
+    make, aspace, Action = _hist_parts(seed % 2)
+    env, ref = make(), make()
+    env.set_seed(seed)
+    ref.set_seed(seed)
+    ref_state, ref_obs = None, None
+    legal, illegal = aspace.actions[0], Action.PICK_N_DROP
+    for t, op in enumerate(ops):
+        where = f'op {t} ({op}) of {"".join(ops)}'
+        try:
+            if op == 'R':
+                env.reset()
+                ref_state, ref_obs = ref.functional_reset(), None
+            elif op == 'Z':
+                env.set_seed(seed + 17)
+                ref = make()                  # a fresh environment given that seed
+                ref.set_seed(seed + 17)
+            elif op == 'T':
+                try:
+                    s = env.state
+                    if ref_state is None or not (s == ref_state):
+                        return f'{where}: state differs from the functional reference'
+                except RuntimeError:
+                    if ref_state is not None:
+                        return f'{where}: state raised RuntimeError after a reset'
+            elif op == 'O':
+                try:
+                    o = env.observation
+                    if ref_state is None:
+                        return f'{where}: observation available before the first reset'
+                    if ref_obs is None:
+                        ref_obs = ref.functional_observation(ref_state)
+                    if not _obs_eq(o, ref_obs):
+                        return f'{where}: observation differs from the functional reference'
+                except RuntimeError:
+                    if ref_state is not None:
+                        return f'{where}: observation raised RuntimeError after a reset'
+            elif op == 'S':
+                try:
+                    r = env.step(legal)
+                    if ref_state is None:
+                        return f'{where}: step worked before the first reset'
+                    ref_state, rr, dd = ref.functional_step(ref_state, legal)
+                    ref_obs = None
+                    if tuple(r) != (rr, dd):
+                        return f'{where}: reward / done differ from the functional reference'
+                except RuntimeError:
+                    if ref_state is not None:
+                        return f'{where}: step raised RuntimeError after a reset'
+            elif op == 'I':
+                try:
+                    env.step(illegal)
+                    return f'{where}: an action outside the action space was accepted'
+                except ValueError:
+                    pass                      # rejected: the reference does nothing at all
+                except RuntimeError:
+                    if ref_state is not None:
+                        return f'{where}: RuntimeError instead of ValueError for an illegal action'
+        except Exception as e:
+            return f'{where}: {type(e).__name__}: {e}'[:300]
+    return None
+
+
+def _gym_history(ops, seed):
+    from gym_gridverse.gym import GymEnvironment, GymStateWrapper
+    from gym_gridverse.outer_env import OuterEnv
+    from gym_gridverse.representations.observation_representations import make_observation_representation
+    from gym_gridverse.representations.state_representations import make_state_representation
+    import numpy as np
+    make, aspace, Action = _hist_parts(seed % 2)
+    inner, ref = make(), make()
+    inner.set_seed(seed)
+    ref.set_seed(seed)
+    srep = make_state_representation('default', inner.state_space)
+    orep = make_observation_representation('default', inner.observation_space)
+    genv = GymEnvironment(OuterEnv(inner, state_representation=srep, observation_representation=orep))
+    wrap = GymStateWrapper(genv)
+    ref_state, ref_obs = None, None
+
+    def same(d, e):
+        return set(d) == set(e) and all(np.array_equal(d[k], e[k]) for k in d)
+
+    def the_obs():
+        nonlocal ref_obs
+        if ref_obs is None:
+            ref_obs = ref.functional_observation(ref_state)
+        return orep.convert(ref_obs)
+    for t, op in enumerate(ops):
+        where = f'op {t} ({op}) of {"".join(ops)}'
+        try:
+            if op == 'r':              # plain reset: returns the observation of the fresh state
+                o = genv.reset()
+                ref_state, ref_obs = ref.functional_reset(), None
+                if not same(o, the_obs()):
+                    return f'{where}: reset did not return the observation of the fresh state'
+            elif op == 'R':            # wrapper reset: returns the state representation
+                s = wrap.reset()
+                ref_state, ref_obs = ref.functional_reset(), None
+                the_obs()                  # the wrapped environment's reset reads the fresh observation
+                if not same(s, srep.convert(ref_state)):
+                    return f'{where}: wrapper reset did not return the fresh state'
+            elif op in ('s', 'S'):
+                if ref_state is None:
+                    continue
+                idx = (t + seed) % 3
+                out = (genv if op == 's' else wrap).step(idx)
+                ref_state, rr, dd = ref.functional_step(ref_state, aspace.actions[idx])
+                ref_obs = None
+                want_obs = the_obs()       # the gym layer reads the observation right after the step
+                if (out[1], out[2]) != (rr, dd):
+                    return f'{where}: reward / done differ from the inner functional step'
+                if op == 's' and not same(out[0], want_obs):
+                    return f'{where}: step did not return the post-step observation'
+                if op == 's' and len(out[3]) != 0:
+                    return f'{where}: info dictionary of a plain step is not empty'
+                if op == 'S' and not same(out[0], srep.convert(ref_state)):
+                    return f'{where}: wrapper step did not return the post-step state'
+                if op == 'S' and not same(out[3]['observation'], want_obs):
+                    return f'{where}: wrapper step passed a wrong observation through info'
+            elif op == 'o':
+                if ref_state is None:
+                    continue
+                if not same(genv.observation, the_obs()):
+                    return f'{where}: observation differs from the representation of the inner observation'
+            elif op == 't':
+                if ref_state is None:
+                    continue
+                if not same(genv.state, srep.convert(ref_state)):
+                    return f'{where}: state differs from the representation of the inner state'
+        except Exception as e:
+            return f'{where}: {type(e).__name__}: {e}'[:300]
+    return None
+
+
+def _hist_case(args):
+    kind, ops, seed = args
+    try:
+        bad = (_inner_history if kind == 'inner' else _gym_history)(ops, seed)
+    except Exception as e:
+        bad = f'harness: {type(e).__name__}: {e}'[:300]
+    return (kind, ''.join(ops), seed, bad)
+
+
+def env_histories(tier, seed):
+    n_inner, n_gym = (5, 5) if tier == 'quick' else (6, 6)
+    cases = [('inner', ops, seed + k) for k in range(4) for ops in itertools.product('RSITOZ', repeat=n_inner) if ops[0] in 'RSO']
+    cases += [('gym', ops, seed + k) for k in range(2) for ops in itertools.product('rRsSot', repeat=n_gym) if ops[0] in 'rR']
+    with mp.Pool(16) as pool:
+        res = pool.map(_hist_case, cases, chunksize=64)
+    failures = []
+    for kind, ops, sd, bad in res:
+        if bad and len(failures) < 6 and not any(f['what'] == bad.split(': ', 1)[-1][:90] for f in failures):
+            prop = 'C20' if kind == 'gym' else ('C02' if 'Z' in ops and 'differs' in bad else 'C04')
+            failures.append({'what': bad.split(': ', 1)[-1][:90], 'prop': None, 'layer': kind, 'history': ops, 'seed': sd,
+                             'detail': bad, 'suggested_property': prop})
+    return {
+        'what': 'every short history of public calls on the stateful layers (inner environment; gym adapter with state '
+                'wrapper) built from stochastic components, against a reference threaded through the functional interface '
+                '(a re-seeded environment against a fresh environment given that seed)',
+        'bound': f'all histories of length {n_inner} over reset/step/illegal step/state/observation/re-seed (inner) and of '
+                 f'length {n_gym} over reset/wrapper reset/step/wrapper step/observation/state (gym), 2 seeds',
+        'evaluations': len(cases),
+        'distinct_nontrivial': len(cases),
+        'failures': failures,
+        'samples': [{'layer': cases[100][0], 'history': ''.join(cases[100][1]), 'seed': cases[100][2]}],
+        'exhaustive': True,
+    }
+
+
+ITEMS['env_histories'] = env_histories
+
+
 if __name__ == '__main__' and len(sys.argv) > 1 and sys.argv[1] == 'digest':
     native.setup_path()
     print('DIGEST ' + _traj_digest(sys.argv[2], int(sys.argv[3]), int(sys.argv[4])))
